@@ -20,7 +20,7 @@ RULE = (
     "<g> around 1-3 consecutive siblings (inside svg/g only), empty <g/>, inter-element whitespace, XML declaration, id-less symbol whose content carries ids, comment / processing instruction before or after the document element - "
     "at random legal tree positions incl. inside defs, clipPaths, gradients and groups. Oracle (metamorphic): "
     "convert(N(D)) must equal convert(D) after canonicalising generated gradient ids (renumbered by first reference), "
-    "sorting gradients in defs and comparing gradient numeric attributes v with tolerance 1e-5 + 2e-6*|v| (double rounding of the 6-decimal gradient parameters, scaled by bounding box and ancestor transforms); if one side raises the other must "
+    "sorting gradients in defs and comparing gradient numeric attributes with tolerance 1e-5 + 2e-6*S, S = largest gradient number of the document (double rounding of the 6-decimal gradient parameters, scaled by bounding box and ancestor transforms); if one side raises the other must "
     "raise too. Non-trivial = some noise landed inside a group/defs/clipPath/gradient (not only at root level) and "
     "convert(D) has >= 2 paths; distinct = distinct (D, N(D))."
 )
@@ -77,7 +77,7 @@ _GNUM = re.compile(r"-?\d+\.\d{7}")
 
 def _same_up_to_last_digit(a: str, b: str) -> bool:
     """canon() prints every gradient number with 7 decimals; two canonical documents are equivalent when they
-    are identical apart from those numbers and corresponding numbers v differ by at most 1e-5 + 2e-6*|v|.
+    are identical apart from those numbers and corresponding numbers differ by at most 1e-5 + 2e-6*S, S = largest gradient number of the document.
     Gradient parameters are rounded to 6 decimals, sometimes twice: once when the gradient element is normalised in
     place and once more for the copy made for a transformed shape; whether the copy starts from the rounded or the
     unrounded original depends on the processing order, which noise may change.  The half unit of the 6th decimal
@@ -87,7 +87,11 @@ def _same_up_to_last_digit(a: str, b: str) -> bool:
     if _GNUM.sub("#", a) != _GNUM.sub("#", b):
         return False
     na, nb = [float(x) for x in _GNUM.findall(a)], [float(x) for x in _GNUM.findall(b)]
-    return len(na) == len(nb) and all(abs(x - y) <= 1e-5 + 2e-6 * max(abs(x), abs(y)) for x, y in zip(na, nb))
+    # the scale is the largest gradient number of the document, not the number itself: folding the translation into
+    # x1..y2 adds and subtracts terms of that size, so a small result carries their absolute error (5.269231 vs
+    # 5.269177 next to y1=-96.55, x2=133.27)
+    scale = max([1.0] + [abs(v) for v in na + nb])
+    return len(na) == len(nb) and all(abs(x - y) <= 1e-5 + 2e-6 * scale for x, y in zip(na, nb))
 
 
 def _conv(s):
